@@ -165,6 +165,7 @@ func (h *FBDNSDB) ServeDNSWithRCODE(ctx context.Context, w dns.ResponseWriter, r
 		return dns.RcodeServerFailure, nil
 	}
 	defer reader.Close()
+	verifYield("q:acquired", ctx)
 	// State carries important information about the current request.
 	// It is also used to write the reply.
 	state := request.Request{W: w, Req: r}
@@ -205,6 +206,7 @@ func (h *FBDNSDB) ServeDNSWithRCODE(ctx context.Context, w dns.ResponseWriter, r
 		h.logger.LogFailed(state, r, ecs)
 		return dns.RcodeServerFailure, nil
 	}
+	verifYield("q:located", ctx)
 
 	if loc.Mask > 0 {
 		h.stats.IncrementCounter("DNS_location.ecs")
@@ -261,6 +263,7 @@ func (h *FBDNSDB) ServeDNSWithRCODE(ctx context.Context, w dns.ResponseWriter, r
 	// its name servers. The domain returned is the one for which we found
 	// matching SOA or NS
 	ns, auth, zoneCut, err := reader.IsAuthoritative(packedQName, loc)
+	verifYield("q:authchecked", ctx)
 
 	if err != nil {
 		h.stats.IncrementCounter("DNS_error.is_authoritative")
@@ -308,6 +311,7 @@ func (h *FBDNSDB) ServeDNSWithRCODE(ctx context.Context, w dns.ResponseWriter, r
 			// log something
 		}
 		weighted, recordFound = reader.FindAnswer(packedQName, zoneCut, state.QName(), state.QType(), loc, a, maxAns)
+		verifYield("q:answered", ctx)
 		if len(a.Answer) == 0 && !recordFound {
 			a.Rcode = dns.RcodeNameError
 		}
@@ -341,9 +345,11 @@ func (h *FBDNSDB) ServeDNSWithRCODE(ctx context.Context, w dns.ResponseWriter, r
 	// Additional section
 	weighted = db.AdditionalSectionForRecords(reader, a, loc, state.QClass(), a.Answer) || weighted
 	weighted = db.AdditionalSectionForRecords(reader, a, loc, state.QClass(), a.Ns) || weighted
+	verifYield("q:additional", ctx)
 
 	if h.cacheConfig.Enabled {
 		// Cache answer before we add ECS/options
+		verifYield("q:precache", ctx)
 		var timeout int64
 		if !weighted {
 			// FIXME: we can leave this in cache until it get flushed (via DB reload)
@@ -366,6 +372,7 @@ func (h *FBDNSDB) ServeDNSWithRCODE(ctx context.Context, w dns.ResponseWriter, r
 
 		a.Extra = append([]dns.RR{o}, a.Extra...)
 	}
+	verifYield("q:prewrite", ctx)
 
 	return h.writeAndLog(state, a, ecs)
 }
